@@ -120,7 +120,9 @@ def run_check(prop: str, tier: str, fn, level="other", technique="", explanation
     try:
         ctx = Ctx(prop, tier)
         fn(ctx)
-        ctx.check_floors()
+        if not ctx.findings:
+            # instance floors guard against vacuous passes; when a rule already reports a violation that report is the answer
+            ctx.check_floors()
         if tier == "thorough" and thorough_fn is not None:
             thorough_fn(ctx)
     except AnalysisError as e:
